@@ -7,6 +7,14 @@ Shared rules: public API only, objects mapped to small numbers / names, nothing 
 import json
 
 
+
+def let_timeouts_through(e):
+    """`except BaseException` around code of the implementation must not swallow the worker's per-case watchdog
+    (worker.CaseTimeout): a hang is reported as a hang (and the worker restarted), not as an outcome `raised-CaseTimeout`"""
+    if type(e).__name__ == "CaseTimeout":
+        raise e
+
+
 def _sx(x):
     from corerun import sx
     return sx(x)
@@ -156,6 +164,7 @@ def run_aiostart(case):
                     got = asyncio.run(main())
                 out = "ok" if got == yields else "wrong-values"
             except BaseException as e:
+                let_timeouts_through(e)
                 out = "raised-" + _ename(e)
             import gc
             gc.collect()
@@ -306,11 +315,13 @@ def run_eventhook(case):
     except Boom as e:
         out = "err-%d" % errs.index(e) if e in errs else "err-unknown"
     except BaseException as e:
+        let_timeouts_through(e)
         out = "raised-" + _ename(e)
-    clean = 1 if (len(sched._tasks) == 0 and sched.active_task is None) else 0
+    clean = "(clean %d %d %d)" % (1 if (len(sched._tasks) == 0 and sched.active_task is None) else 0, len(sched._batches),
+                                  sum(1 for b in sched._batches if b.items and not b.is_flushed()))
     asynq.scheduler.reset()
     lines = ["(case eventhook %d %s %s %s %s)" % (case["id"], mode, entry, _sx(["handlers"] + hs), _sx(["siblings"] + sibs)),
-             "(result %s %s %s %d %d %d)" % (out, _sx(sorted(calls)), _sx(flushes), nevents[0], nevents[1], clean), "(end)"]
+             "(result %s %s %s %d %d %s)" % (out, _sx(sorted(calls)), _sx(flushes), nevents[0], nevents[1], clean), "(end)"]
     return {"lines": lines, "features": ["family=eventhook", "eventhook=" + mode, "eventhook-entry=" + entry, "eventhook-items=" + case["items"]]
             + sorted({"eventhook-handler=" + k for k, _ in hs}),
             "nontrivial": "eventhook-" + json.dumps([mode, entry, hs, sibs])}
@@ -354,7 +365,9 @@ def run_debugthreads(case):
     outs = {}
     go_b = threading.Event()
     b_done = threading.Event()
-    T = 10
+    # rendezvous budget: thread B's whole computation takes microseconds; 20 s (two thirds of the per-case watchdog) only ever
+    # expires on a machine that is not scheduling the process at all - reported as `raised-RuntimeError`, never silently
+    T = 20
 
     def request(who, p, level):
         if case["api"] == "sync":
@@ -403,6 +416,7 @@ def run_debugthreads(case):
             got = tree(who, chains)
             outs[who] = "ok" if got == list(range(len(chains))) else "wrong-values"
         except BaseException as e:
+            let_timeouts_through(e)
             outs[who] = "raised-" + _ename(e)
         finally:
             if who == "B":
@@ -415,7 +429,7 @@ def run_debugthreads(case):
     for t in ths:
         t.start()
     for t in ths:
-        t.join(3 * T)
+        t.join(T + 5)
     lines = ["(case debugthreads %d %s %s)" % (case["id"], _sx(["a"] + a), _sx(["b"] + b)),
              "(result A %s %s)" % (outs.get("A", "no-outcome"), _sx(flushes["A"])),
              "(result B %s %s)" % (outs.get("B", "no-outcome"), _sx(flushes["B"])),
@@ -430,6 +444,11 @@ def run_debugthreads(case):
 
 def hookssurvive_cases(tier, rng):
     cases = []
+    for k in (1, 2, 3):
+        for width in (1, 2):
+            # second audit 7b: batch.flush() ITSELF raises (BatchBase.flush swallows what _flush raises, so `raises`=1 never
+            # reaches the try/finally of TaskScheduler._flush_batch)
+            cases.append({"special": "hookssurvive", "how": "flush-raises", "k": k, "times": 1, "width": width, "raises": 0})
     for how in ("guard", "guard-nested", "method-reset", "none", "module-reset"):
         for k in (1, 2, 3):
             for times in ((1,) if how in ("none",) else (1, 2)):
@@ -469,12 +488,18 @@ def run_hookssurvive(case):
             if case.get("raises"):
                 raise RuntimeError("flush raises")
 
+        def flush(self):
+            batching.BatchBase.flush(self)
+            if state["flush_raises"] is not None:
+                raise state["flush_raises"]
+
     class I(batching.BatchItemBase):
         def __init__(self, payload):
             batching.BatchItemBase.__init__(self, cur[0])
             self.payload = payload
 
     cur = [B(0)]
+    state = {"flush_raises": None}
 
     @asynq.asynq()
     def chain(p, n):
@@ -499,7 +524,7 @@ def run_hookssurvive(case):
         try:
             fan_out(60)
         except RuntimeError as e:
-            return "guard" if "exceeded maximum threshold" in str(e) else "other"
+            return "guard"        # (whatever the message says: a RuntimeError out of a computation that overflows the limit)
         return "no-guard"
 
     asynq.scheduler.reset()
@@ -511,6 +536,7 @@ def run_hookssurvive(case):
         if comp() != list(range(width)):
             first = "wrong-values"
     except BaseException as e:
+        let_timeouts_through(e)
         first = "raised-" + _ename(e)
     log1 = list(log)
     del log[:]
@@ -526,13 +552,14 @@ def run_hookssurvive(case):
                         fan_out(60)
                         mid.append("no-guard")
                     except RuntimeError as e:
-                        mid.append("guard" if "exceeded maximum threshold" in str(e) else "other")
+                        mid.append("guard")
                 else:
                     try:
                         mid.append(nested_overflow())
                     except RuntimeError as e:
-                        mid.append("guard-escaped" if "exceeded maximum threshold" in str(e) else "other")
+                        mid.append("guard-escaped")
             except BaseException as e:
+                let_timeouts_through(e)
                 mid.append("raised-" + _ename(e))
             finally:
                 asynq.debug.options.MAX_TASK_STACK_SIZE = old
@@ -546,6 +573,24 @@ def run_hookssurvive(case):
         elif how == "module-reset":
             asynq.scheduler.reset()
             mid.append("reset")
+        elif how == "flush-raises":
+            # a computation whose FIRST flush raises out of batch.flush(): the after event must still fire, the error leaves
+            # value(); recorded raw: outcome + the events of that computation
+            del log[:]
+            flush_boom = RuntimeError("batch.flush() raises")
+            state["flush_raises"] = flush_boom
+            try:
+                comp()
+                o = "no-error"
+            except RuntimeError as e:
+                o = "raised-flush-error" if e is flush_boom else "raised-other-RuntimeError"
+            except BaseException as e:
+                let_timeouts_through(e)
+                o = "raised-" + _ename(e)
+            finally:
+                state["flush_raises"] = None
+            mid.append(o + ":" + ".".join(log))
+            cur[0] = B(cur[0].seq + 1)      # (the items of the failed computation stay in the abandoned batch)
         else:
             mid.append("none")
     same = 1 if asynq.scheduler.get_scheduler() is sched else 0
@@ -560,6 +605,7 @@ def run_hookssurvive(case):
         if comp() != list(range(width)):
             second = "wrong-values"
     except BaseException as e:
+        let_timeouts_through(e)
         second = "raised-" + _ename(e)
     log2 = list(log)
     asynq.scheduler.reset()
@@ -782,6 +828,7 @@ def run_callctx(case):
             got = root()
         out = "ok" if got == list(range(len(case["calls"]))) else "wrong-values"
     except BaseException as e:
+        let_timeouts_through(e)
         out = "raised-" + _ename(e)
     final = rd()
     asynq.scheduler.reset()
@@ -937,6 +984,7 @@ def run_selfawait(case):
                 if not tolerate:
                     raise
             except BaseException as e:
+                let_timeouts_through(e)
                 obs["nested"] = "raised-" + _ename(e)
                 if not tolerate:
                     raise
@@ -966,21 +1014,26 @@ def run_selfawait(case):
     except ValueError as e:
         out = "raised-ValueError" if "already executing" in str(e) else "raised-ValueError-other"
     except BaseException as e:
+        let_timeouts_through(e)
         out = "raised-" + _ename(e)
     act = asynq.scheduler.get_active_task()
     s2 = asynq.scheduler.get_scheduler()
-    top = [1 if act is None else 0, len(s2._tasks), 1 if s2 is sched else 0]
+    top = [1 if act is None else 0, len(s2._tasks), 1 if s2 is sched else 0, len(s2._batches),
+           sum(1 for b in s2._batches if b.items and not b.is_flushed())]
 
     @asynq.asynq()
     def second():
         me = asynq.scheduler.get_active_task()
         v = yield leaf.asynq(1)
         w = yield I(3)
-        return [v, w, 1 if me.creator is None else 0, len(asynq.debug.format_asynq_stack() or [])]
+        # (format_asynq_stack() is called - it must not fail on a fresh scheduler - but its FORMAT is diagnostic, not behaviour)
+        asynq.debug.format_asynq_stack()
+        return [v, w, 1 if me.creator is None else 0]
 
     try:
         nxt = second()
     except BaseException as e:
+        let_timeouts_through(e)
         nxt = ["raised-" + _ename(e)]
     act2 = asynq.scheduler.get_active_task()
     try:
